@@ -183,6 +183,10 @@ class Codec:
         # a malformed frame takes only itself out of the buffer
         frame_end = valid_idx + next_msg
 
+        # ... and not more than up to whatever looks like the start of another frame
+        resync = rawmsg.find(b"8=FIX.", valid_idx + 1, frame_end)
+        bad_end = resync if resync != -1 else frame_end
+
         encoded_msg = rawmsg[valid_idx:frame_end]
 
         msg = msg[:next_msg].split(self.SOH)
@@ -194,7 +198,7 @@ class Codec:
             assert silent, "Minimum message"
             if is_delimited:
                 # nothing more will arrive for this frame, it is just too short
-                return (None, frame_end, None)
+                return (None, bad_end, None)
             return (None, parsed_length, None)
 
         tag, value = msg[0].split("=", 1)
@@ -204,22 +208,22 @@ class Codec:
                 % (value, self.protocol.beginstring)
             )
             assert silent, "protocol beginstring mismatch"
-            return (None, frame_end, None)
+            return (None, bad_end, None)
 
         toks = msg[1].split("=", 1)
         if len(toks) != 2:
             assert silent, f"BodyLength split error {msg}"
-            return (None, frame_end, None)
+            return (None, bad_end, None)
         tag, value = toks
 
         msg_length = len(msg[0]) + len(msg[1]) + len("10=000") + 3
         if tag != FTag.BodyLength:
             logging.error(f"*** BodyLength missing or not 2nd field *** [{tag}]: {msg}")
             assert silent, "2nd tag must be BodyLength"
-            return (None, frame_end, None)
+            return (None, bad_end, None)
         elif not (value.isascii() and value.isdigit()):
             assert silent, "BodyLength is not a number"
-            return (None, frame_end, None)
+            return (None, bad_end, None)
         else:
             msg_length += int(value)
 
@@ -228,7 +232,7 @@ class Codec:
             assert silent, "incomplete message"
             if is_delimited:
                 # the frame is complete, its BodyLength points beyond its end
-                return (None, frame_end, None)
+                return (None, bad_end, None)
             return (None, parsed_length, None)
 
         checksum_passed = False
@@ -236,6 +240,7 @@ class Codec:
         if is_delimited:
             # never take bytes of the following frame on the word of BodyLength
             parsed_length = frame_end
+        bad_length = bad_end if is_delimited else parsed_length
 
         decoded_msg = FIXMessage("UNKNOWN")
         repeating_groups = []
@@ -246,16 +251,16 @@ class Codec:
             toks = m.split("=", 1)
             if len(toks) != 2:
                 assert silent, f"incomplete tag {m}"
-                return (None, frame_end, None)
+                return (None, bad_end, None)
             tag, value = toks
             if not (tag.isascii() and tag.isdigit()):
                 assert silent, f"non numeric tag {m}"
-                return (None, frame_end, None)
+                return (None, bad_end, None)
 
             if tag == FTag.CheckSum:
                 if not (value.isascii() and value.isdigit() and len(value) == 3):
                     assert silent, f"CheckSum is not a 3 digit number {m}"
-                    return (None, parsed_length, None)
+                    return (None, bad_length, None)
                 cheksum_base = self.SOH.join(msg[:-1])
                 checksum = (sum([ord(i) for i in cheksum_base]) + 1) % 256
 
@@ -345,4 +350,4 @@ class Codec:
             return (decoded_msg, parsed_length, encoded_msg)
         else:
             assert silent, f"Checksum probably missing: {msg}"
-            return (None, parsed_length, None)
+            return (None, bad_length, None)
